@@ -99,6 +99,42 @@ class World(Sim):
         self.log.append((op, {k: v for k, v in r.items() if k != 'value'}))
         return r
 
+    def _known_trigger_states(self):
+        """signatures of known findings whose trigger STATE currently holds in the database (what the per-op guards prevent)"""
+        out = set()
+        canc = {}
+        for r in self.q('SELECT id, job_group_id FROM job_groups_cancelled'):
+            canc.setdefault(r['id'], set()).add(r['job_group_id'])
+        if any(len(v) >= 2 for v in canc.values()):
+            for r in self.q('SELECT batch_id, job_group_id, ancestor_id FROM job_group_self_and_ancestors'):
+                gs = canc.get(r['batch_id'], ())
+                if r['job_group_id'] != r['ancestor_id'] and r['job_group_id'] in gs and r['ancestor_id'] in gs:
+                    out.add('is-job-cancelled-1242-two-cancelled-ancestors')
+                    break
+        ups = self.q('SELECT batch_id, update_id, committed FROM batch_updates')
+        by_batch = {}
+        for u in ups:
+            by_batch.setdefault(u['batch_id'], {})[u['update_id']] = bool(u['committed'])
+        sent1 = {u['batch_id'] for u in self.updates if u['update_id'] == 1 and u['sent_jobs']}
+        for b, us in by_batch.items():
+            if b in sent1 and us.get(1) is False and any(c for k, c in us.items() if k != 1):
+                out.add('uncommitted-update1-job-scheduled')
+            if b in sent1 and us.get(1) and b in canc:
+                # (committed after a cancel, or cancelled after the commit: only the first is the finding, but the state cannot tell;
+                #  it is compared before / after the pair, so a batch cancelled after its commit earlier in the history does not count)
+                out.add(f'commit-update1-after-cancel-miscounts@{b}')
+        open_later = {(b, k) for b, us in by_batch.items() for k, c in us.items() if k != 1 and not c}
+        if open_later:
+            kids = {(j['batch_id'], j['job_id']) for j in self.q('SELECT batch_id, job_id, update_id FROM jobs')
+                    if (j['batch_id'], j['update_id']) in open_later}
+            if kids:
+                term = {(j['batch_id'], j['job_id']) for j in self.q('SELECT batch_id, job_id, state FROM jobs')
+                        if j['state'] in ('Success', 'Failed', 'Error', 'Cancelled')}
+                for x in self.q('SELECT batch_id, job_id, parent_id FROM job_parents'):
+                    if (x['batch_id'], x['job_id']) in kids and (x['batch_id'], x['parent_id']) in term:
+                        out.add(f"uncommitted-child-made-ready-by-parent-completion@{x['batch_id']}.{x['parent_id']}.{x['job_id']}")
+        return out
+
     async def op_par(self, op_a, op_b, sched=()):
         """two requests / loop bodies in flight at once: both ops run as concurrent tasks and every SQL statement either of them sends
         is a schedule point at which the generated schedule (a list of small ints: how many times to yield first) decides who goes
@@ -119,6 +155,7 @@ class World(Sim):
                 trace.append((sess.id, k, ' '.join(str(sql).split())[:60]))
             for _ in range(k):
                 await asyncio.sleep(0)
+        before_triggers = self._known_trigger_states()
         eng = self.engine
         prev = getattr(eng, 'sched_hook', None)
         eng.sched_hook = hook
@@ -128,6 +165,17 @@ class World(Sim):
             ra, rb = await asyncio.gather(ta, tb)
         finally:
             eng.sched_hook = prev
+        hit = self._known_trigger_states() - before_triggers
+        if hit:
+            # in one of the two serial orders the pair is the trigger of a known finding (e.g. cancel || commit of the first update);
+            # the per-op guards look at the state before the op and cannot see it
+            hit = {h.split('@')[0] for h in hit}
+            guarded = sorted(h for h in hit if h in self.guards)
+            if guarded:
+                self.excluded += 1
+                self.stop_history = True
+                return {'skipped': True, 'excluded_after_par': guarded}
+            self.flags.extend(sorted(hit))
         ok = bool((ra or {}).get('ok', True)) and bool((rb or {}).get('ok', True))
         return {'ok': ok, 'a': {k: v for k, v in (ra or {}).items() if k != 'value'}, 'b': {k: v for k, v in (rb or {}).items() if k != 'value'},
                 'schedule_points': pos[0], **({'trace': trace} if trace else {})}
